@@ -21,10 +21,12 @@ type ownership struct {
 	keep     []interface{}
 	factory  int
 	err      string
+	nils     int              // nil values the clients themselves returned and that are still in the pool
+	foreign  map[uintptr]bool // objects of another type that the clients themselves put into the pool
 }
 
 func newOwnership() *ownership {
-	return &ownership{held: map[uintptr]int{}, returned: map[uintptr]bool{}, seen: map[uintptr]bool{}}
+	return &ownership{held: map[uintptr]int{}, returned: map[uintptr]bool{}, seen: map[uintptr]bool{}, foreign: map[uintptr]bool{}}
 }
 
 func objID(o interface{}) uintptr {
@@ -44,6 +46,11 @@ func (w *ownership) fail(f string, a ...interface{}) {
 // got records that holder obtained o; factoryBefore is the factory counter before the Get.
 func (w *ownership) got(holder int, o interface{}, factoryBefore int, counting bool) {
 	if o == nil {
+		// a nil that a client itself returned may come back out; any other nil is a broken Get
+		if w.nils > 0 {
+			w.nils--
+			return
+		}
 		w.fail("Get returned nil")
 		return
 	}
@@ -86,6 +93,8 @@ type poolKind struct {
 }
 
 type poolObj struct{ n int }
+
+type otherType struct{ pad [2]int }
 
 var poolKinds = []poolKind{
 	{"newPool(counting factory)", func(size int, w *ownership) hessian.Pool {
@@ -142,7 +151,7 @@ func usable(o interface{}) string {
 // ---- layer 1: sequential histories ---------------------------------------------------
 
 type poolOp struct {
-	kind   int // 0 get, 1 return held (index), 2 return foreign
+	kind   int // 0 get, 1 return held (index), 2 return foreign, 3 return nil, 4 return an object of another type
 	holder int
 	idx    int
 }
@@ -153,6 +162,12 @@ func (o poolOp) String() string {
 		return fmt.Sprintf("h%d.Get", o.holder)
 	case 1:
 		return fmt.Sprintf("h%d.Return(held#%d)", o.holder, o.idx)
+	}
+	if o.kind == 3 {
+		return fmt.Sprintf("h%d.Return(nil)", o.holder)
+	}
+	if o.kind == 4 {
+		return fmt.Sprintf("h%d.Return(object of another type)", o.holder)
 	}
 	return fmt.Sprintf("h%d.Return(foreign)", o.holder)
 }
@@ -180,7 +195,7 @@ func (s *poolState) enabled() []poolOp {
 			ops = append(ops, poolOp{1, h, i})
 		}
 	}
-	ops = append(ops, poolOp{2, 0, 0})
+	ops = append(ops, poolOp{2, 0, 0}, poolOp{3, 0, 0}, poolOp{4, 0, 0})
 	return ops
 }
 
@@ -198,12 +213,17 @@ func (s *poolState) apply(op poolOp) string {
 		if s.w.err != "" {
 			return s.w.err
 		}
-		if got := fmt.Sprintf("%T", o); got != s.kind.typ {
-			return fmt.Sprintf("Get returned %s, the pool advertises %s", got, s.kind.typ)
+		if o == nil {
+			break // the nil a client returned earlier
 		}
-		if idleBefore == 0 {
-			if u := usable(o); u != "" {
-				return "object obtained from an empty pool is not usable: " + u
+		if !s.w.foreign[objID(o)] {
+			if got := fmt.Sprintf("%T", o); got != s.kind.typ {
+				return fmt.Sprintf("Get returned %s, the pool advertises %s", got, s.kind.typ)
+			}
+			if idleBefore == 0 {
+				if u := usable(o); u != "" {
+					return "object obtained from an empty pool is not usable: " + u
+				}
 			}
 		}
 		s.heldBy[op.holder] = append(s.heldBy[op.holder], o)
@@ -228,6 +248,22 @@ func (s *poolState) apply(op poolOp) string {
 		if p := core.Catch(func() { s.pool.Return(o) }); p != "" {
 			return "Return panicked: " + p
 		}
+	case 3:
+		// Return must complete for any value, also nil; if the pool keeps it, a later Get may hand it out
+		idle0, _ := hessian.VerifPoolLen(s.pool)
+		if p := core.Catch(func() { s.pool.Return(nil) }); p != "" {
+			return "Return(nil) panicked: " + p
+		}
+		if idle1, _ := hessian.VerifPoolLen(s.pool); idle1 > idle0 {
+			s.w.nils++
+		}
+	case 4:
+		o := &otherType{}
+		s.w.foreign[objID(o)] = true
+		s.w.giveBack(o)
+		if p := core.Catch(func() { s.pool.Return(o) }); p != "" {
+			return "Return of an object of another type panicked: " + p
+		}
 	}
 	idle, capacity := hessian.VerifPoolLen(s.pool)
 	if idle > s.size || capacity > s.size {
@@ -250,6 +286,11 @@ func (s *poolState) drain() string {
 			return "Get panicked while draining: " + p
 		}
 		if o == nil {
+			if s.w.nils > 0 {
+				s.w.nils--
+				n++
+				continue
+			}
 			return "Get returned nil while draining"
 		}
 		if s.w.returned[objID(o)] {
